@@ -23,7 +23,7 @@ func GenHeaders(r *R, max int) []ir.Header {
 	var hs []ir.Header
 	for i := 0; i < n && i < len(perm); i++ {
 		sh := Pick(r, headerShapes)
-		hs = append(hs, ir.Header{Name: headerNames[perm[i]], Type: sh.typ, Format: sh.format, Required: r.P(3, 4), Desc: "d", Example: "e"})
+		hs = append(hs, ir.Header{Name: headerNames[perm[i]], Type: sh.typ, Format: sh.format, Required: r.P(3, 4), Desc: "d", Example: "e", Deprecated: r.P(1, 4)})
 	}
 	return hs
 }
@@ -39,7 +39,7 @@ func AddHeaders(r *R, f *ir.File) {
 				if len(s.Headers) > 0 && r.P(1, 2) {
 					o := s.Headers[r.Intn(len(s.Headers))]
 					sh := Pick(r, headerShapes)
-					ov := ir.Header{Name: o.Name, Type: sh.typ, Format: sh.format, Required: r.Bool()}
+					ov := ir.Header{Name: o.Name, Type: sh.typ, Format: sh.format, Required: r.Bool(), Deprecated: r.P(1, 4)}
 					// replace a same-named generated header if present
 					replaced := false
 					for i := range m.Headers {
